@@ -47,7 +47,7 @@ CFG = {
         "CQE order is not compared, completions are matched by user_data; wall-clock time is never compared (a 30 s alarm only guards against a completion that never arrives)",
         "teardown is judged only in sub-check drop; the differential sub-checks drop their rings without looking",
     ],
-    "required_classes": [
+    "required_classes": ["peek:late-operation-needed-a-wakeup-while-completions-were-held-back", 
         # (sub-check drop is an exhaustive enumeration, reported under exhaustive_subdomain; its classes stay empty
         # for as long as every ring hits the known double-munmap finding)
         "peek:completion-ring-overflowed", "sock:abstract-unix-listener", "sock:connect-to-abstract-address-through-the-ring",
